@@ -34,13 +34,10 @@ func vSpanIs(x []int, base []int, off int) bool {
 	return true
 }
 
-func VH_slice_EditScript() {
-	nl, nr := vCase("nl"), vCase("nr")
-	lhs, rhs := vMkInts(nl), vMkInts(nr)
-	l0 := append([]int{}, lhs...)
-	r0 := append([]int{}, rhs...)
-	es := EditScript(lhs, rhs)
-	vCover("script")
+// vCheckScript checks that es is a well-formed, canonical edit script that
+// turns lhs into rhs and keeps exactly wantKept elements.
+func vCheckScript(es []Edit[int], lhs, rhs []int, wantKept int) {
+	nl, nr := len(lhs), len(rhs)
 	lpos, rpos, kept := 0, 0, 0
 	var out []int
 	for i, e := range es {
@@ -92,8 +89,22 @@ func VH_slice_EditScript() {
 		for i := range out {
 			vAssert(out[i] == rhs[i], "script produces rhs")
 		}
-		vAssert(kept == vRefLCSLen(lhs, rhs), "emitted count equals the LCS length (minimal script)")
+		vAssert(kept == wantKept, "emitted count equals the LCS length (minimal script)")
 	}
+}
+
+func VH_slice_EditScript() {
+	nl, nr := vCase("nl"), vCase("nr")
+	lhs, rhs := vMkInts(nl), vMkInts(nr)
+	l0 := append([]int{}, lhs...)
+	r0 := append([]int{}, rhs...)
+	es := EditScript(lhs, rhs)
+	vCover("script")
+	want := 0
+	if len(es) > 0 {
+		want = vRefLCSLen(lhs, rhs)
+	}
+	vCheckScript(es, lhs, rhs, want)
 	// empty exactly when equal
 	same := nl == nr
 	if same {
@@ -133,6 +144,53 @@ func VH_slice_EditScript() {
 			vAssert(vSpanInside(e.X, lhs), "an earlier script still refers to its own lhs")
 		}
 	}
+}
+
+// VH_slice_EditScriptBig: inputs at and just beyond plausible internal size
+// thresholds. lhs is 0,2,4,…; rhs is 1,3,5,… (nothing in common, no common
+// prefix or suffix), except for one symbolic element x in the middle of rhs
+// and one symbolic element y near the end of lhs, each of which may or may not
+// hit an element of the other side. The LCS length is known in closed form.
+func VH_slice_EditScriptBig() {
+	n, d := vCase("n"), vCase("d")
+	m := n + d
+	lhs, rhs := make([]int, n), make([]int, m)
+	for i := range lhs {
+		lhs[i] = 2 * i
+	}
+	for j := range rhs {
+		rhs[j] = 2*j + 1
+	}
+	if n < 8 {
+		return
+	}
+	// x: one of the last three lhs values' neighbourhood (even = hit)
+	x := vRange("x", 2*n-6, 2*n-1)
+	// y: around rhs[1] and rhs[2] (odd = hit), left of x's partner in lhs
+	y := vRange("y", 2, 6)
+	xp, yp := m/2, 1
+	rhs[xp] = x
+	lhs[yp] = y
+	l0 := append([]int{}, lhs...)
+	r0 := append([]int{}, rhs...)
+	es := EditScript(lhs, rhs)
+	vCover("bigscript")
+	// x hits lhs[x/2] when even (x/2 ≥ n-3 > yp); y hits rhs[(y-1)/2] when odd
+	// ((y-1)/2 ∈ {1,2} < xp). The two matches are compatible (both increasing), so
+	// the LCS length is the number of hits.
+	want := vIte(x%2 == 0, 1, 0) + vIte(y%2 == 1, 1, 0)
+	vAssert(len(es) > 0, "different inputs give a non-empty script")
+	vCheckScript(es, lhs, rhs, want)
+	for i := range lhs {
+		vAssert(lhs[i] == l0[i], "lhs not modified")
+	}
+	for i := range rhs {
+		vAssert(rhs[i] == r0[i], "rhs not modified")
+	}
+	got := LCS(lhs, rhs)
+	vAssert(len(got) == want, "LCS has optimal length")
+	vAssert(vIsSubseq(got, lhs), "LCS is a subsequence of the first argument")
+	vAssert(vIsSubseq(got, rhs), "LCS is a subsequence of the second argument")
 }
 
 // vSpanInside reports whether x is a sub-slice of base's storage.
